@@ -343,7 +343,11 @@ def check_f(ctx, sm, tier, seed):
                ('HvTwoPins', synth('HvTwoPins', W('a'), W('b', 1), W('r'), W('s'))),
                ('HvPipeFeedback', synth('HvPipeFeedback', W('a'), W('q'))),
                ('HvInnerName', synth('HvInnerName', W('t'), W('r'))),
-               ('HvLane', synth('HvLane', W('a'), W('r'), True))]
+               ('HvLane', synth('HvLane', W('a'), W('r'), True)),
+               ('HvMultiOutFar', synth('HvMultiOutFar', W('a', 3), W('r', 1), W('s', 1))),
+               ('HvTwoPinsFar', synth('HvTwoPinsFar', W('a'), W('b', 1), W('r'))),
+               ('HvNoInputs(add first)', synth('HvNoInputs', W('q'), True)),
+               ('HvNoInputs(reg first)', synth('HvNoInputs', W('q'), False))]
     for sp in SPECS:
         cfgs = list(sp['configs'](tier))
         for p in (cfgs[len(cfgs) // 2:len(cfgs) // 2 + 1] if tier == 'quick' else cfgs[::max(1, len(cfgs) // 3)][:3]):
